@@ -230,8 +230,142 @@ def growth_discover(ctx: Ctx):
                                         "devices_printed": sum(len(v["printed"]) for v in vectors), "runs_without_any_replier": sum(1 for v in vectors if not v["arrivals"])}
 
 
+def download_run(rng, k, workdir):
+    """One `msmart-ng download HOST` run: the host answers the discovery (or not), the SmartHome cloud answers each request as scripted."""
+    import os
+    import msmart.cli as cli
+    from msmart.cloud import SmartHomeCloud, CloudError
+    from msmart.discover import Discover
+    from .drivers.c17 import rand_identity, build
+    from . import cloudsrv
+    found = k % 6 != 0
+    ip = "10.8.%d.%d" % (k % 250, 1 + k % 200)
+    ident = rand_identity(rng, typ=rng.choice([0xAC, 0xAC, 0xA1, 0xDB]), port=6444)
+    rep = build(rng, ident, ip, rng.choice([2, 3]))
+    own = k % 2 == 0
+    region = rng.choice(["US", "DE", "KR"])
+    account, password = ("user%d@example.com" % k, "pw%dsecret" % k) if own else SmartHomeCloud.CLOUD_CREDENTIALS[region]
+    srv = cloudsrv.ModelSmartHome(account, password, rng=rng, cn=False)
+    srv.sn = ident["sn"].decode()
+    srv.script = [rng.choice(["ok"] * 7 + ["timeout", "http"]) for _ in range(16)] if k % 3 else []
+    if srv.script and rng.random() < 0.25:
+        srv.script[rng.randrange(2)] = "api"         # (an API-level refusal is an outcome of POST requests only; the first two requests are the login's)
+    events = srv.events
+    none = {"name": [], "data": []}
+    calls, rets, seen = [], [], {}
+
+    class Recorded(SmartHomeCloud):
+        """The library's client, told which HTTP client to use, with its three public operations logged (call / result)."""
+
+        def __init__(self, *a, **kw):
+            kw.pop("get_async_client", None)
+            super().__init__(*a, get_async_client=srv.client, **kw)
+
+        async def _logged(self, op, coro, call):
+            calls.append(op)
+            events.append(call)
+            try:
+                r = await coro
+            except CloudError:
+                events.append({"ev": "ret", "r": "cloud_error", **none})
+                raise
+            except Exception as ex:  # noqa: BLE001 - code under test
+                events.append({"ev": "ret", "r": "other:" + type(ex).__name__, **none})
+                raise
+            if op == "login":
+                events.append({"ev": "ret", "r": "ok", **none})
+            else:
+                name, data = r
+                raw = data.encode("utf-8") if isinstance(data, str) else bytes(data)
+                events.append({"ev": "ret", "r": "ok", "name": B(str(name).encode()), "data": B(raw)})
+                rets.append({"op": op, "name": B(str(name).encode()), "data": B(raw)})
+            return r
+
+        async def login(self, force=False):
+            return await self._logged("login", super().login(force=force), {"ev": "call", "op": "login", "force": bool(force), "sn": [], "dtype": 0})
+
+        async def get_protocol_lua(self, device_type, sn):
+            seen.update(sn=str(sn), dtype=int(device_type))
+            return await self._logged("lua", super().get_protocol_lua(device_type, sn), {"ev": "call", "op": "lua", "force": False, "sn": B(str(sn).encode()), "dtype": int(device_type)})
+
+        async def get_plugin(self, device_type, sn):
+            seen.update(sn=str(sn), dtype=int(device_type))
+            return await self._logged("plugin", super().get_plugin(device_type, sn), {"ev": "call", "op": "plug", "force": False, "sn": B(str(sn).encode()), "dtype": int(device_type)})
+
+    def setup(loop, net):
+        state = {"armed": False}
+
+        def on_udp(tr, data, addr):
+            if found and not state["armed"]:
+                state["armed"] = True
+                loop.call_later(0.3, lambda: tr.inject(rep, (ip, 6445)))
+        net.on_udp = on_udp
+    Discover._lock = None
+    d = workdir / f"dl{k}"
+    d.mkdir(parents=True, exist_ok=True)
+    for f in d.iterdir():
+        f.unlink()
+    cwd = os.getcwd()
+    orig = cli.SmartHomeCloud
+    cli.SmartHomeCloud = Recorded
+    os.chdir(d)
+    try:
+        obs = run_cli(["download", ip, "--region", region] + (["--account", account, "--password", password] if own else []), acdev.ACModel(), 2, setup)
+    finally:
+        os.chdir(cwd)
+        cli.SmartHomeCloud = orig
+    files = [{"name": B(f.name.encode()), "data": B(f.read_bytes()), "mtime": f.stat().st_mtime_ns} for f in d.iterdir()]
+    files.sort(key=lambda x: x["mtime"])
+    for f in d.iterdir():
+        f.unlink()
+    d.rmdir()
+    outs = [bool(found)]
+    for e in events:
+        if e.get("ev") == "ret":
+            outs.append(e["r"] == "ok")
+    vec = {"outs": outs, "calls": ["plugin" if c == "plugin" else c for c in calls], "rets": [{"op": r["op"], "name": r["name"], "data": r["data"]} for r in rets],
+           "files": [{"name": f["name"], "data": f["data"]} for f in files], "exit": obs["exit"], "exc": obs["exc"],
+           "call_sn": B(seen.get("sn", "").encode()), "dev_sn": B(ident["sn"]), "call_type": seen.get("dtype", -1), "dev_type": ident["typ"], "k": k}
+    chain = {"account": B(account.encode()), "password": B(password.encode()), "cn": False, "events": events}
+    return vec, chain
+
+
+def growth_download(ctx: Ctx):
+    from .tlc import WORK
+    ctx.mc("MC_CliDownload", "SPECIFICATION DSpec\nINVARIANT Ends\nINVARIANT SuccessIffBothFiles\nINVARIANT NoCloudWithoutDevice\nINVARIANT NothingFetchedWithoutLogin\n"
+                               "INVARIANT PluginOnlyAfterProtocol\nINVARIANT EscapesOnlyWhenFetching\nCHECK_DEADLOCK FALSE\n", name=f"{ctx.pid}_mc_clidownload", timeout=600)
+    runs = [download_run(ctx.rng, k, WORK / f"{ctx.pid}_dl") for k in range(ctx.pick(60, 600))]
+    vectors = [v for v, _ in runs]
+    n = len(vectors)
+    cans = []
+    for v in vectors:
+        if len(v["files"]) == 2 and len(cans) < 1:
+            c = json.loads(json.dumps(v)); c["files"][0]["data"] = c["files"][0]["data"][:-1]; cans.append(c)
+        if v["exit"] == 1 and len(cans) < 2:
+            c = json.loads(json.dumps(v)); c["exit"] = 0; cans.append(c)
+    rej = dict(ctx.validate_vectors("Trace_CliDownload", vectors + cans, name=f"{ctx.pid}_Trace_CliDownload"))
+    missed = [j for j in range(n, n + len(cans)) if j not in rej]
+    if missed:
+        ctx.defer_machinery("Trace_CliDownload accepted a canary")
+    for j, clause in rej.items():
+        if j < n:
+            ctx.drift.append({"what": "msmart-ng download (beyond the listed properties): " + clause, "run": vectors[j]["k"]})
+    ctx.traces_validated -= len(cans) - len(missed)
+    # the cloud side of the same runs: every request the command made, judged by the SmartHome cloud specification
+    chains = [c for _, c in runs if any(e.get("ev") == "call" for e in c["events"])]
+    bad = ctx.validate_chains("Trace_SmartHome", chains, name=f"{ctx.pid}_dl_cloud", consts="CONSTANTS\nRetries = 3\nOutcomes <- AllOutcomes\nMaxCalls = 1000\n")
+    for j, clause in sorted(bad.items()):
+        ctx.drift.append({"what": "msmart-ng download, cloud requests (beyond the listed properties): " + clause})
+    from collections import Counter
+    ctx.extra["cli_download_growth"] = {"runs": n, "accepted": n - len([j for j in rej if j < n]), "canaries_rejected": len(cans) - len(missed),
+                                        "cloud_traces_accepted": len(chains) - len(bad), "cloud_traces": len(chains),
+                                        "stages_reached": dict(Counter(len(v["outs"]) for v in vectors)), "exit_status": dict(Counter(v["exit"] for v in vectors)),
+                                        "named_code_behaviour": "DownloadErrorEscapes: a cloud error while fetching the protocol / plugin ends the process with a traceback"}
+
+
 def growth(ctx: Ctx):
     growth_discover(ctx)
+    growth_download(ctx)
     ctx.mc("MC_CliQuery", "SPECIFICATION QSpec\n" + CFG, name=f"{ctx.pid}_mc_cliquery", timeout=600)
     r = run_tlc("Gen_CliQuery", "SPECIFICATION QSpec\nCONSTANTS\nRetries = 3\nCONSTRAINT GEmit\nCHECK_DEADLOCK FALSE\n", name=f"{ctx.pid}_gen_cliquery", workers=1, timeout=600)
     scn = [json.loads(p[1]) for p in r.prints if isinstance(p, list) and p and p[0] == "SCN"]
